@@ -238,6 +238,10 @@ var errnos = map[int64]error{1: unix.EIO, 2: unix.EACCES, 3: unix.ENOSPC, 4: uni
 
 func (d *diskState) hook(op string, dirfd int, path string, dirfd2 int, path2 string) error {
 	s := d.h.s
+	if s.Crashed() {
+		// The daemon is dead: none of its system calls happens any more.
+		s.ParkForever()
+	}
 	if s.PassThrough() {
 		return nil
 	}
